@@ -924,6 +924,10 @@ impl<T: Transport + 'static> SyncEngine<T> {
                 let result = match task.action {
                     SyncAction::Create => {
                         if let Some(source) = &task.source {
+                            // An entry of another kind that is in the way (a symbolic link left where
+                            // the source has a file or a directory now) is replaced: the path was there
+                            // before the run, so the change is reported as an update, not a creation
+                            let replaces_entry = std::fs::symlink_metadata(&task.dest_path).is_ok();
                             match transferrer.create(source, &task.dest_path).await {
                                 // A symlink entry that the link mode left out (skip mode; follow mode
                                 // with a target that does not resolve or is a directory) put nothing in
@@ -955,7 +959,11 @@ impl<T: Transport + 'static> SyncEngine<T> {
                                     {
                                         let mut stats = stats.lock().unwrap();
                                         stats.bytes_transferred += bytes_written;
-                                        stats.files_created += 1;
+                                        if replaces_entry {
+                                            stats.files_updated += 1;
+                                        } else {
+                                            stats.files_created += 1;
+                                        }
 
                                         // Track in performance monitor
                                         if let Some(monitor) = &perf_monitor {
@@ -1040,7 +1048,15 @@ impl<T: Transport + 'static> SyncEngine<T> {
                                     }
 
                                     // Emit JSON event if enabled
-                                    if json {
+                                    if json && replaces_entry {
+                                        SyncEvent::Update {
+                                            path: task.dest_path.clone(),
+                                            size: source.size,
+                                            bytes_transferred: bytes_written,
+                                            delta_used: false,
+                                        }
+                                        .emit();
+                                    } else if json {
                                         SyncEvent::Create {
                                             path: task.dest_path.clone(),
                                             size: source.size,
